@@ -181,6 +181,12 @@ impl<'r> Gen<'r> {
                 },
             }
         }
+        // reference targets: the checker and the grammar know one object namespace, so a reference
+        // that usually names a MEASUREMENT (or CHARACTERISTIC) may name any object; one module in
+        // three draws these targets from the whole namespace
+        let mix_kinds = self.rng.chance(1, 3);
+        let meas_t: Vec<String> = if mix_kinds { objs.clone() } else { meas.clone() };
+        let chars_t: Vec<String> = if mix_kinds { objs.clone() } else { chars.clone() };
         // typedef kinds
         let mut td_axis = Vec::new();
         let mut td_blob = Vec::new();
@@ -198,11 +204,24 @@ impl<'r> Gen<'r> {
         }
 
         // ---- UNIT
+        // direction of the REF_UNIT chains: to the next unit of the file, to the previous one (the
+        // chain then runs against the file order, every unit chained), or to a random other one
+        let unit_ref_mode = self.rng.below(3);
         for (i, name) in units.iter().enumerate() {
             let mut u = Unit::new(name.clone(), self.mk_text(), "unit".into(), UnitType::Derived);
-            if self.cfg.cycles && self.want() && units.len() > 1 {
+            let chain_start = unit_ref_mode == 1 && i == 0 && self.rng.coin();
+            if self.cfg.cycles && units.len() > 1 && !chain_start && (unit_ref_mode == 1 || self.want()) {
                 // chains and cycles among units
-                let t = units[(i + 1) % units.len()].clone();
+                let t = match unit_ref_mode {
+                    0 => units[(i + 1) % units.len()].clone(),
+                    1 => units[(i + units.len() - 1) % units.len()].clone(),
+                    _ => loop {
+                        let k = self.rng.below(units.len());
+                        if k != i {
+                            break units[k].clone();
+                        }
+                    },
+                };
                 u.ref_unit = Some(RefUnit::new(t));
             }
             if self.rng.coin() {
@@ -341,7 +360,7 @@ impl<'r> Gen<'r> {
                 }
             }
             if self.want() {
-                let l = self.pick_some_rep(&meas, 2);
+                let l = self.pick_some_rep(&meas_t, 2);
                 let mut v = Virtual::new();
                 v.measuring_channel_list = l;
                 x.var_virtual = Some(v);
@@ -392,25 +411,25 @@ impl<'r> Gen<'r> {
                 _ => 0,
             };
             for _ in 0..n_axes {
-                x.axis_descr.push(self.axis_descr(&cms, &meas, &axes, &curve_names, ci != 0, None));
+                x.axis_descr.push(self.axis_descr(&cms, &meas_t, &axes, &curve_names, ci != 0, None));
             }
             if self.want() {
-                if let Some(t) = self.pick(&meas) {
+                if let Some(t) = self.pick(&meas_t) {
                     x.comparison_quantity = Some(ComparisonQuantity::new(t));
                 }
             }
             if self.want() {
                 let mut d = DependentCharacteristic::new("X1".into());
-                d.characteristic_list = self.pick_some_rep(&chars, 2);
+                d.characteristic_list = self.pick_some_rep(&chars_t, 2);
                 x.dependent_characteristic = Some(d);
             } else if self.want() {
                 let mut d = VirtualCharacteristic::new("X1".into());
-                d.characteristic_list = self.pick_some_rep(&chars, 2);
+                d.characteristic_list = self.pick_some_rep(&chars_t, 2);
                 x.virtual_characteristic = Some(d);
             }
             if self.want() {
                 let mut ml = MapList::new();
-                ml.name_list = self.pick_some_rep(&chars, 2);
+                ml.name_list = self.pick_some_rep(&chars_t, 2);
                 x.map_list = Some(ml);
             }
             if self.want() {
@@ -479,7 +498,7 @@ impl<'r> Gen<'r> {
                 None
             };
             x.axis_descr
-                .push(self.axis_descr(&cms, &meas, &axes, &curve_names, true, this_ref));
+                .push(self.axis_descr(&cms, &meas_t, &axes, &curve_names, true, this_ref));
             m.typedef_characteristic.push(x);
         }
         for name in &td_struct {
@@ -501,6 +520,31 @@ impl<'r> Gen<'r> {
             }
             m.typedef_structure.push(x);
         }
+        // two more TYPEDEF_CHARACTERISTICs without THIS. references: one that nothing uses, and one
+        // that is a structure component and the type of an INSTANCE at the same time
+        let mut dual_td: Option<String> = None;
+        // (names of the generator's form <prefix>_<number>, numbers beyond the universe)
+        let extra_base: Option<(String, usize)> = td_char
+            .iter()
+            .find(|n| !n.contains('.'))
+            .and_then(|n| n.rsplit_once('_'))
+            .and_then(|(p, k)| k.parse::<usize>().ok().map(|k| (p.to_string(), k)));
+        if let (true, Some((td_prefix, td_num)), true) = (self.cfg.full, extra_base.clone(), self.rng.coin()) {
+            for (offset, dual) in [(1000usize, false), (2000, true)] {
+                let name = format!("{td_prefix}_{}", offset + td_num);
+                let rl = self.pick(&rls).unwrap();
+                let conv = cm_or_none(self);
+                let mut x = TypedefCharacteristic::new(name.clone(), self.mk_text(), CharacteristicType::Curve, rl, 0.0, conv, 10.0, 100.0);
+                x.axis_descr.push(self.axis_descr(&cms, &meas_t, &axes, &curve_names, true, None));
+                m.typedef_characteristic.push(x);
+                if dual {
+                    if let Some(st) = m.typedef_structure.iter_mut().next() {
+                        st.structure_component.push(StructureComponent::new("cd".into(), name.clone(), 48));
+                        dual_td = Some(name);
+                    }
+                }
+            }
+        }
         // ---- INSTANCE (never of a TYPEDEF_CHARACTERISTIC that uses THIS.: use structures / measurements)
         let inst_types: Vec<String> = td_struct.iter().chain(td_meas.iter()).chain(td_blob.iter()).cloned().collect();
         for name in &insts {
@@ -511,12 +555,17 @@ impl<'r> Gen<'r> {
                 if let Some(c) = self.pick(&cms) {
                     ow.conversion = Some(Conversion::new(c));
                 }
-                if let Some(q) = self.pick(&meas) {
+                if let Some(q) = self.pick(&meas_t) {
                     ow.input_quantity = Some(InputQuantity::new(q));
                 }
                 x.overwrite.push(ow);
             }
             m.instance.push(x);
+        }
+        if let (Some(t), Some((td_prefix, td_num))) = (dual_td, extra_base) {
+            // an object name: same module prefix, object prefix
+            let name = format!("{}o_{}", td_prefix.strip_suffix("td").unwrap_or(""), 3000 + td_num);
+            m.instance.push(Instance::new(name, self.mk_text(), t, 0x7000));
         }
         // names live in separate namespaces: an INSTANCE may be called like a TYPEDEF_CHARACTERISTIC
         // (of which it is not an instance)
@@ -529,32 +578,38 @@ impl<'r> Gen<'r> {
                 }
             }
         }
+        // REF_CHARACTERISTIC / DEF_CHARACTERISTIC name adjustable objects: CHARACTERISTICs and AXIS_PTS
+        let adjustables: Vec<String> = chars.iter().chain(axes.iter()).cloned().collect();
         // ---- FUNCTION
         for (i, name) in funcs.iter().enumerate() {
             let mut x = Function::new(name.clone(), self.mk_text());
             if self.want() {
                 let mut l = DefCharacteristic::new();
-                l.identifier_list = self.pick_some(&chars, 3);
+                l.identifier_list = if self.rng.coin() { self.pick_some(&chars_t, 3) } else { self.pick_some(&adjustables, 3) };
                 x.def_characteristic = Some(l);
             }
             if self.want() {
                 let mut l = RefCharacteristic::new();
-                l.identifier_list = self.pick_some(&chars, 3);
+                l.identifier_list = match self.rng.below(3) {
+                    0 => self.pick_some(&chars_t, 3),
+                    1 => self.pick_some(&adjustables, 3),
+                    _ => self.pick_some(&axes, 2),
+                };
                 x.ref_characteristic = Some(l);
             }
             if self.want() {
                 let mut l = InMeasurement::new();
-                l.identifier_list = self.pick_some(&meas, 3);
+                l.identifier_list = self.pick_some(&meas_t, 3);
                 x.in_measurement = Some(l);
             }
             if self.want() {
                 let mut l = LocMeasurement::new();
-                l.identifier_list = self.pick_some(&meas, 3);
+                l.identifier_list = self.pick_some(&meas_t, 3);
                 x.loc_measurement = Some(l);
             }
             if self.want() {
                 let mut l = OutMeasurement::new();
-                l.identifier_list = self.pick_some(&meas, 3);
+                l.identifier_list = self.pick_some(&meas_t, 3);
                 x.out_measurement = Some(l);
             }
             if self.cfg.cycles && self.want() && funcs.len() > 1 {
@@ -586,12 +641,16 @@ impl<'r> Gen<'r> {
             }
             if self.want() {
                 let mut l = RefCharacteristic::new();
-                l.identifier_list = self.pick_some(&chars, 3);
+                l.identifier_list = match self.rng.below(3) {
+                    0 => self.pick_some(&chars_t, 3),
+                    1 => self.pick_some(&adjustables, 3),
+                    _ => self.pick_some(&axes, 2),
+                };
                 x.ref_characteristic = Some(l);
             }
             if self.want() {
                 let mut l = RefMeasurement::new();
-                l.identifier_list = self.pick_some(&meas, 3);
+                l.identifier_list = self.pick_some(&meas_t, 3);
                 x.ref_measurement = Some(l);
             }
             if self.want() {
@@ -609,7 +668,7 @@ impl<'r> Gen<'r> {
             let mut x = Frame::new(name.clone(), self.mk_text(), 1, 10);
             if self.want() {
                 let mut l = FrameMeasurement::new();
-                l.identifier_list = self.pick_some_rep(&meas, 3);
+                l.identifier_list = self.pick_some_rep(&meas_t, 3);
                 x.frame_measurement = Some(l);
             }
             m.frame.push(x);
@@ -634,12 +693,12 @@ impl<'r> Gen<'r> {
             if self.want() {
                 // any object kind can be the input / output of a transformer
                 let mut l = TransformerInObjects::new();
-                l.identifier_list = if self.rng.coin() { self.pick_some(&objs, 3) } else { self.pick_some(&chars, 2) };
+                l.identifier_list = if self.rng.coin() { self.pick_some(&objs, 3) } else { self.pick_some(&chars_t, 2) };
                 x.transformer_in_objects = Some(l);
             }
             if self.want() {
                 let mut l = TransformerOutObjects::new();
-                l.identifier_list = if self.rng.coin() { self.pick_some(&objs, 3) } else { self.pick_some(&chars, 2) };
+                l.identifier_list = if self.rng.coin() { self.pick_some(&objs, 3) } else { self.pick_some(&chars_t, 2) };
                 x.transformer_out_objects = Some(l);
             }
             m.transformer.push(x);
@@ -672,19 +731,19 @@ impl<'r> Gen<'r> {
                 let mut c = VarCriterion::new(name.clone(), self.mk_text());
                 c.value_list = vec!["v1".into(), "v2".into()];
                 if self.want() {
-                    if let Some(t) = self.pick(&meas) {
+                    if let Some(t) = self.pick(&meas_t) {
                         c.var_measurement = Some(VarMeasurement::new(t));
                     }
                 }
                 if self.want() {
-                    if let Some(t) = self.pick(&chars) {
+                    if let Some(t) = self.pick(&chars_t) {
                         c.var_selection_characteristic = Some(VarSelectionCharacteristic::new(t));
                     }
                 }
                 vc.var_criterion.push(c);
             }
             for _ in 0..self.rng.urange(1, 2) {
-                if let Some(t) = self.pick(&chars) {
+                if let Some(t) = self.pick(&chars_t) {
                     let mut c = VarCharacteristic::new(t);
                     c.criterion_name_list = self.pick_some(&crits, 2);
                     vc.var_characteristic.push(c);
